@@ -277,6 +277,9 @@ theorem inv_step {stream0 : List Frame} {s s' : State} {e : Event}
         · exact key _ (Or.inr rfl) (by intro p f' hh'; cases hh') true
       · cases h
     · cases h
+  | close =>
+    simp only [step, Option.some.injEq] at h; subst h
+    exact ⟨hi.rest, hi.range, hi.own, hi.once, hi.reader⟩
 
 theorem inv_run (stream0 : List Frame) : ∀ (es : List Event) (s s' : State),
     Inv stream0 s → runFrom s es = some s' → Inv stream0 s' := by
@@ -435,6 +438,7 @@ theorem closed_is_final (s s' : State) (e : Event) (hc : s.closed = true) (h : s
       · split at h <;> (simp at h; subst h; simp [hc])
       · cases h
     · cases h
+  · simp at h; subst h; rfl
 
 /-- non-vacuity: two callers, responses in the opposite order, one foreign frame; both get their own -/
 example : (run [⟨2, 20⟩, ⟨1, 10⟩] [.write 10 true 1, .write 20 true 2, .yield 1 2, .take 2, .finish 2 .ok, .take 1, .finish 1 .ok]).map
@@ -533,6 +537,7 @@ theorem total_step {s s' : State} {e : Event} (ht : Total s) (h : step s e = som
         · intro i h1 h2; exact setStatus_isSome s seq _ i (ht i h1 h2)
       · cases h
     · cases h
+  | close => simp only [step, Option.some.injEq] at h; subst h; exact ht
 
 /-- on an open conn no call has failed -/
 def NoFailure (s : State) : Prop := s.closed = false → ∀ i c, s.calls i = some c → c.st ≠ .done .err
@@ -663,6 +668,7 @@ theorem noFailure_step {stream0 : List Frame} (ht : Truthful stream0) {s s' : St
           · intro hcl; simp at hcl
         · cases h
       · cases h
+    | close => simp only [step, Option.some.injEq] at h; subst h; intro hcl; simp at hcl
   · cases h
 
 theorem stepC_step {s s' : State} {e : Event} (h : stepC s e = some s') : step s e = some s' := by
